@@ -17,13 +17,14 @@ import sys
 import fractions
 
 from . import core
+from . import heap as _heap
 
 REPO = os.environ.get("TTCONV_REPO", "/repo")
 SRC = os.path.join(REPO, "src", "main", "python")
 
 REWRITES = [
   "`a is b` / `a is not b`  ->  __vc_is__(a, b) / __vc_is_not__(a, b)   (identity on non-symbolic operands)",
-  "module globals `int`, `float`, `isinstance` shadowed by shims that are the builtins on non-symbolic operands",
+  "module globals `int`, `float`, `isinstance`, `list`, `type` shadowed by shims that are the builtins on non-symbolic operands",
   "module global `Fraction` (if the module imports fractions.Fraction) replaced by a shim, identical on non-symbolic operands",
   "loops named in a contract are cut at their head (invariant/havoc) -- applied per function by pyvc.contracts, not at load time",
   "nothing is dropped: docstrings, annotations, logging calls and all other statements execute as written",
@@ -55,6 +56,8 @@ SHIM_GLOBALS = {
   "int": core.vc_int,
   "float": core.vc_float,
   "isinstance": core.vc_isinstance,
+  "list": _heap.vc_list,
+  "type": _heap.vc_type,
 }
 
 _loaded_sources = {}   # module name -> (path, sha256)
